@@ -1,6 +1,7 @@
 
 #include <string.h>
 #include <errno.h>
+#include <stdint.h>
 
 #include "array.h"
 #include "config.h"
@@ -43,7 +44,9 @@ extern int mpt_path_last(MPT_STRUCT(path) *path)
 		--data; ++len; --pos;
 	}
 	path->off += pos;
-	path->len  = (path->first = len) + 1;
+	/* length cache is limited, longer element is searched */
+	path->first = len > UINT8_MAX ? 0 : len;
+	path->len   = len + 1;
 	
 	return len;
 }
